@@ -220,7 +220,7 @@ func runConc(c ConcCase) *pbt.Result {
 	}
 	dir := mkHome()
 	defer os.RemoveAll(dir)
-	out, exit, timedOut, err := runHelper("conc", c, dir, nil, []string{"GORACE=halt_on_error=1 exitcode=66"}, 180*time.Second)
+	out, exit, timedOut, err := runHelper("conc", c, dir, nil, []string{"GORACE=halt_on_error=1 exitcode=66 atexit_sleep_ms=0"}, 180*time.Second)
 	if err != nil {
 		panic(fmt.Sprintf("harness: cannot run the helper process: %v", err))
 	}
@@ -278,13 +278,17 @@ var (
 var concSpec = pbt.Register(pbt.Spec[ConcCase]{
 	Prop: "C18", Name: "concurrent-getters",
 	Rule: "3-8 versions of a file over 2-5 keys; a child process (this binary, built with -race) creates the configuration on version 0, starts 4 readers spinning over GetValue + one of GetValueDef/GetBoolean/GetInt/GetLong/GetFloat/GetIntSet/GetStringArray/GetKeys per key, then writes and reloads every later version while the readers run (optionally with an observer that calls getters inside the notification); violation = race-detector report, runtime fatal error, hang, a GetValue result that no version of the key ever had, or the last version not visible at quiescence; non-trivial = at least 2 reloads and every reader completed at least 2 rounds per reload",
-	Quick: 48, Thorough: 1600,
+	Quick: 96, Thorough: 3200,
 	Draw: drawConc, Run: runConc,
 })
 
+// The name starts with TestRace so that the driver's race-detector group can select
+// it with -run. It also runs in the plain group (cheap: the scenario lives in a
+// child process), where the runtime's own "concurrent map read and map write"
+// detection and the torn-state oracle still apply; VERIF_C18_NORACE_SKIP=1 skips it there.
 func TestRaceConcurrentGetters(t *testing.T) {
-	if !raceEnabled && os.Getenv("VERIF_C18_RACE") == "" {
-		t.Skip("runs in the race-detector group (or with VERIF_C18_RACE=1)")
+	if !raceEnabled && os.Getenv("VERIF_C18_NORACE_SKIP") != "" {
+		t.Skip("skipped outside the race-detector group on request")
 	}
 	concSpec.Check(t)
 }
